@@ -81,6 +81,7 @@ def run_case(case, answer_within=3.0):
         gate.hit("check", n + 1)
 
     def on_get(event):
+        gate.hit("prelude", 0)
         yield n
         for i in range(1, n + 1):
             gate.hit("check", i)
@@ -91,7 +92,9 @@ def run_case(case, answer_within=3.0):
     dest_port = [0]
 
     def on_move(event):
+        gate.hit("prelude", 0)
         yield "127.0.0.1", dest_port[0]
+        gate.hit("prelude", 1)
         yield n
         for i in range(1, n + 1):
             gate.hit("check", i)
@@ -113,7 +116,8 @@ def run_case(case, answer_within=3.0):
         return 0x0000
 
     ae = AE("ACCEPTOR")
-    ae.acse_timeout, ae.dimse_timeout, ae.network_timeout = 2.0, 1.0, 4.0
+    # (tmo = FALSE: no DIMSE timeout is configured - a wait for a DIMSE response then ends only when something arrives)
+    ae.acse_timeout, ae.dimse_timeout, ae.network_timeout = 2.0, (1.0 if case.get("tmo", True) else None), 4.0
     for uid in (VERIF_UID, FIND, GET, MOVE, CT):
         ae.add_supported_context(uid, scu_role=True, scp_role=True)
     ae.add_requested_context(CT)
@@ -126,7 +130,7 @@ def run_case(case, answer_within=3.0):
         dest.add_supported_context(CT)
         dest_server = dest.start_server(("127.0.0.1", 0), block=False, evt_handlers=[(evt.EVT_C_STORE, dest_store)])
         dest_port[0] = dest_server.socket.getsockname()[1]
-    obs = {"svc": svc, "n": n, "pos": pos, "k": k, "rp": False, "t_rp": -1.0, "peer_saw": "", "reached": False, "queued": False}
+    obs = {"svc": svc, "n": n, "pos": pos, "k": k, "tmo": bool(case.get("tmo", True)), "rp": False, "t_rp": -1.0, "peer_saw": "", "reached": False, "queued": False}
     peer = None
     try:
         peer = RawPeer(port, [(VERIF_UID, ["1.2.840.10008.1.2"]), (FIND, ["1.2.840.10008.1.2"]), (GET, ["1.2.840.10008.1.2"]), (MOVE, ["1.2.840.10008.1.2"]),
@@ -166,7 +170,7 @@ def run_case(case, answer_within=3.0):
         if pos == "idle":
             obs["reached"] = True
             send_release()
-        elif pos in ("handler", "check", "final") or (pos == "sub" and svc == "move"):
+        elif pos in ("handler", "prelude", "check", "final") or (pos == "sub" and svc == "move"):
             # the acceptor-side thread stops at the arrival point; sub-operations of C-GET before it are answered by the peer loop below
             pass
         substores = 0
